@@ -419,7 +419,8 @@ func TestCrashPointsRapid(t *testing.T) {
 
 func TestStoreFaultsEnum(t *testing.T) {
 	idx := 0
-	for _, basicKind := range []bool{false, true} {
+	for _, kind := range []string{"full", "basic", "basic-joining-first"} {
+		basicKind := kind != "full"
 		for _, wipe := range []string{"none", "at-window-start", "while-leaving", "own-entry-only"} {
 			if wipe == "while-leaving" && basicKind {
 				continue // the basic lifecycler has no leaving phase of its own
@@ -433,20 +434,20 @@ func TestStoreFaultsEnum(t *testing.T) {
 					if wipe == "none" && w == 0 {
 						continue
 					}
-					failure := storeFault(t, basicKind, wipe, a, w)
+					failure := storeFault(t, basicKind, kind == "basic-joining-first", wipe, a, w)
 					vx.Eval(1)
-					vx.NonTrivial(vx.FP("fault", basicKind, wipe, a, w))
+					vx.NonTrivial(vx.FP("fault", kind, wipe, a, w))
 					if failure != "" {
-						vx.Failf(t, "TestStoreFaultsEnum", map[string]any{"basic": basicKind, "wipe": wipe, "first_failing_call": a, "failing_calls": w}, "basic=%v wipe=%s failing calls [%d,%d): %s", basicKind, wipe, a, a+w, failure)
+						vx.Failf(t, "TestStoreFaultsEnum", map[string]any{"kind": kind, "wipe": wipe, "first_failing_call": a, "failing_calls": w}, "%s wipe=%s failing calls [%d,%d): %s", kind, wipe, a, a+w, failure)
 					}
 				}
 			}
 		}
 	}
-	vx.Exhaustive("store faults: {full, basic} x {no wipe, whole ring key wiped when the window opens, wiped while leaving, only the instance's own entry lost (another member stays)} x windows of 0..4 failing store calls starting at the 1st..3rd call after the lifecycler is active")
+	vx.Exhaustive("store faults: {full, basic registering as active, basic registering as joining and made active by its owner} x {no wipe, whole ring key wiped when the window opens, wiped while leaving, only the instance's own entry lost (another member stays)} x windows of 0..4 failing store calls starting at the 1st..3rd call after the lifecycler is active")
 }
 
-func storeFault(t *testing.T, basicKind bool, wipe string, a, w int) (failure string) {
+func storeFault(t *testing.T, basicKind, joiningFirst bool, wipe string, a, w int) (failure string) {
 	vx.Bubble(t, func(b *vx.B) {
 		store, closer := consul.NewInMemoryClient(ring.GetCodec(), log.NewNopLogger(), nil)
 		b.Cleanup(func() { _ = closer.Close() })
@@ -460,6 +461,11 @@ func storeFault(t *testing.T, basicKind bool, wipe string, a, w int) (failure st
 		f := fakekv.NewFaulty(store)
 		hb := 4 * time.Second
 		cfg := lcx.Cfg{ID: "ing-1", Basic: basicKind, NumTokens: 4, JoinAfter: time.Second, HBPeriod: hb, GenSeed: 5, GenSpace: 32, RegState: ring.ACTIVE, FinalSleep: 30 * time.Second, Unregister: false}
+		if joiningFirst {
+			// the usual pattern: the delegate registers the instance as joining and its owner switches it to
+			// active once it is ready; what the lifecycler remembers from then on is active
+			cfg.RegState = ring.JOINING
+		}
 		l, err := lcx.New(cfg, f)
 		if err != nil {
 			failure = err.Error()
@@ -469,6 +475,12 @@ func storeFault(t *testing.T, basicKind bool, wipe string, a, w int) (failure st
 		if err := services.StartAndAwaitRunning(ctx, l.Svc); err != nil {
 			failure = err.Error()
 			return
+		}
+		if joiningFirst {
+			if err := l.Basic.ChangeState(ctx, ring.ACTIVE); err != nil {
+				failure = fmt.Sprintf("ChangeState(ACTIVE): %v", err)
+				return
+			}
 		}
 		time.Sleep(3 * time.Second)
 		vx.Wait()
@@ -914,6 +926,161 @@ func tokensFileAfterReplacement(t *testing.T, numTokens int, observe time.Durati
 					return
 				}
 			}
+		}
+	})
+	return failure
+}
+
+// ---------------------------------------------------------------------------------------------
+// restart after a token hand-over: the instance left without unregistering, another instance claimed its
+// tokens, its own tokens file still lists them; the new incarnation must not take them back
+
+func TestRestartAfterHandOver(t *testing.T) {
+	idx := 0
+	for _, numTokens := range []int{1, 4} {
+		for _, observe := range []time.Duration{0, 2 * time.Second} {
+			for _, claimerActive := range []bool{true, false} {
+				idx++
+				if !vx.Mine(idx) {
+					continue
+				}
+				failure := restartAfterHandOver(t, numTokens, observe, claimerActive)
+				vx.Eval(1)
+				vx.NonTrivial(vx.FP("restart-after-hand-over", numTokens, observe, claimerActive))
+				if failure != "" {
+					vx.Failf(t, "TestRestartAfterHandOver", map[string]any{"tokens": numTokens, "observe": observe.String(), "claimer_active": claimerActive},
+						"tokens=%d observe=%v claimer active=%v: %s", numTokens, observe, claimerActive, failure)
+				}
+			}
+		}
+	}
+	vx.Exhaustive("restart after a hand-over: full lifecycler with a tokens file, 1 or 4 tokens, observe 0/2 s, stopped keeping its entry, its tokens claimed by a joining instance (which has or has not become active yet), restart")
+}
+
+func restartAfterHandOver(t *testing.T, numTokens int, observe time.Duration, claimerActive bool) (failure string) {
+	dir, err := os.MkdirTemp("", "c09h")
+	if err != nil {
+		return err.Error()
+	}
+	defer os.RemoveAll(dir)
+	vx.Bubble(t, func(b *vx.B) {
+		store, closer := consul.NewInMemoryClient(ring.GetCodec(), log.NewNopLogger(), nil)
+		b.Cleanup(func() { _ = closer.Close() })
+		ctx := context.Background()
+		_ = store.CAS(ctx, lcx.RingKey, func(interface{}) (interface{}, bool, error) {
+			d := ring.NewDesc()
+			d.AddIngester("other", "other:1", "z", []uint32{28, 29, 30, 31}, ring.ACTIVE, time.Now(), false, time.Time{}, nil)
+			return d, true, nil
+		})
+		cfg := lcx.Cfg{ID: "ing-1", NumTokens: numTokens, JoinAfter: time.Second, Observe: observe, HBPeriod: 2 * time.Second, GenSeed: 7, GenSpace: 28,
+			TokensPath: filepath.Join(dir, "tokens"), Unregister: false, FinalSleep: time.Second}
+		l1, err := lcx.New(cfg, store)
+		if err != nil {
+			failure = err.Error()
+			return
+		}
+		var l2, l3 *lcx.LC
+		b.Cleanup(func() {
+			l1.Svc.StopAsync()
+			if l2 != nil {
+				l2.Svc.StopAsync()
+			}
+			if l3 != nil {
+				l3.Svc.StopAsync()
+			}
+			time.Sleep(30 * time.Second)
+		})
+		if err := services.StartAndAwaitRunning(ctx, l1.Svc); err != nil {
+			failure = err.Error()
+			return
+		}
+		time.Sleep(3*observe + 4*time.Second)
+		vx.Wait()
+		first, ok := entry(store, "ing-1")
+		if !ok || first.State != ring.ACTIVE || len(first.Tokens) != numTokens {
+			failure = fmt.Sprintf("setup: first life not active with its tokens: %+v", first)
+			return
+		}
+		if err := services.StopAndAwaitTerminated(ctx, l1.Svc); err != nil {
+			failure = fmt.Sprintf("setup: stopping the first life: %v", err)
+			return
+		}
+		left, ok := entry(store, "ing-1")
+		if !ok || left.State != ring.LEAVING {
+			failure = fmt.Sprintf("setup: the stopped instance did not keep a LEAVING entry: %v %+v", ok, left)
+			return
+		}
+		file, _ := ring.LoadTokensFromFile(cfg.TokensPath)
+		if fmt.Sprint([]uint32(file)) != fmt.Sprint(first.Tokens) {
+			failure = fmt.Sprintf("setup: tokens file holds %v, the instance held %v", file, first.Tokens)
+			return
+		}
+		// the claimer
+		ccfg := lcx.Cfg{ID: "ing-2", NumTokens: numTokens, JoinAfter: time.Hour, HBPeriod: 2 * time.Second, GenSeed: 9, GenSpace: 28, Unregister: false, FinalSleep: time.Second}
+		l2, err = lcx.New(ccfg, store)
+		if err != nil {
+			failure = err.Error()
+			return
+		}
+		if err := services.StartAndAwaitRunning(ctx, l2.Svc); err != nil {
+			failure = err.Error()
+			return
+		}
+		time.Sleep(time.Second)
+		if err := l2.Full.ChangeState(ctx, ring.JOINING); err != nil {
+			failure = fmt.Sprintf("setup: claimer to JOINING: %v", err)
+			return
+		}
+		if err := l2.Full.ClaimTokensFor(ctx, "ing-1"); err != nil {
+			failure = fmt.Sprintf("setup: ClaimTokensFor: %v", err)
+			return
+		}
+		if claimerActive {
+			if err := l2.Full.ChangeState(ctx, ring.ACTIVE); err != nil {
+				failure = fmt.Sprintf("setup: claimer to ACTIVE: %v", err)
+				return
+			}
+		}
+		time.Sleep(3 * time.Second)
+		vx.Wait()
+		claimer, _ := entry(store, "ing-2")
+		handed, _ := entry(store, "ing-1")
+		if fmt.Sprint(claimer.Tokens) != fmt.Sprint(first.Tokens) || len(handed.Tokens) != 0 {
+			failure = fmt.Sprintf("setup: after the claim the claimer holds %v and the old entry %v (first life held %v)", claimer.Tokens, handed.Tokens, first.Tokens)
+			return
+		}
+		// the new incarnation of ing-1
+		l3, err = lcx.New(cfg, store)
+		if err != nil {
+			failure = err.Error()
+			return
+		}
+		if err := services.StartAndAwaitRunning(ctx, l3.Svc); err != nil {
+			failure = fmt.Sprintf("the new incarnation failed to start: %v", err)
+			return
+		}
+		time.Sleep(3*observe + 10*time.Second)
+		vx.Wait()
+		final, ok := entry(store, "ing-1")
+		if !ok || final.State != ring.ACTIVE || len(final.Tokens) != numTokens {
+			failure = fmt.Sprintf("after the restart the instance is not active with %d tokens: present=%v %+v", numTokens, ok, final)
+			return
+		}
+		claimer, _ = entry(store, "ing-2")
+		if fmt.Sprint(claimer.Tokens) != fmt.Sprint(first.Tokens) {
+			failure = fmt.Sprintf("the claimer held %v and now holds %v", first.Tokens, claimer.Tokens)
+			return
+		}
+		for _, tk := range final.Tokens {
+			for _, o := range append(append([]uint32{}, claimer.Tokens...), 28, 29, 30, 31) {
+				if tk == o {
+					failure = fmt.Sprintf("after the restart the instance holds %v: token %d belongs to another instance (ing-2, which claimed the tokens of the first life, holds %v)", final.Tokens, tk, claimer.Tokens)
+					return
+				}
+			}
+		}
+		if final.RegisteredTimestamp != left.RegisteredTimestamp {
+			failure = fmt.Sprintf("registration time changed across the restart: %d -> %d (the entry existed)", left.RegisteredTimestamp, final.RegisteredTimestamp)
 		}
 	})
 	return failure
